@@ -326,3 +326,55 @@ def continuation(S):
     S.oblige("O5.continuation_passes_no_init_sink_or_init_metadata", got.get("sink") is None and got.get("init_request_metadata") is None, kind="trace")
     S.oblige("O5.continuation_owns_its_response_body", got.get("owns_response_body") is True, kind="trace")
     S.canary("O5.canary.no_stream_id_is_passed", SBool(z3.BoolVal(got.get("stream_id") is None)))
+
+
+# ------------------------------------------------------------------------------------------
+# O6  frame condition behind "independent of resumption": apart from the documented call-state cache (C14) a
+# continuation is served from its tokens alone.  No function of the HTTP server modules that take part in a stream turn
+# rebinds or mutates module-level state, so presenting the same token again - to this worker or any other - rebuilds
+# the same state and yields the same batches.
+# ------------------------------------------------------------------------------------------
+
+STATELESS_MODULES = [
+    "vgi_rpc.http.server._app_stream",
+    "vgi_rpc.http.server._app_unary",
+    "vgi_rpc.http.server._resources",
+    "vgi_rpc.http.server._responses",
+    "vgi_rpc.http.server._middleware",
+    "vgi_rpc.http.server._state_token",
+    "vgi_rpc.http.server._app",
+]
+# module-level names that *are* written, and why that cannot carry stream state from one request to the next
+ALLOWED_MODULE_STATE = {
+    ("vgi_rpc.http.server._state_token", "_codecs"): "per-thread memo of zstd (de)compressor objects, value-independent",
+    ("vgi_rpc.http.server._app", "_DISPATCHERS"): "memo of the sync-dispatch function table, built once from module functions",
+}
+
+
+def search_resumption(ob, seed=0):
+    import lib_c11_resume as R
+
+    probs = R.resumption_problems()
+    return ({"scenario": "tokens presented again on the issuing worker / a second worker / capped session iterated twice"}, ReplayResult(True, "; ".join(probs))) if probs else None
+
+
+def replay_resumption(inputs, ob):
+    found = search_resumption(ob)
+    return found[1] if found else ReplayResult(False, "every token presented again (same worker twice, second worker cold and warm, capped session twice) yields exactly the remaining batches")
+
+
+@unit("C11.O6 frame: a stream turn leaves no module-level state behind (statelessness across requests and workers)", targets=[m.replace(".", "/") + ".py (module state)" for m in STATELESS_MODULES], replay=replay_resumption, search=search_resumption, min_obligations=4)
+def stateless_frame(S):
+    import importlib
+
+    from pyvc import locks
+
+    n = 0
+    for name in STATELESS_MODULES:
+        mod = importlib.import_module(name)
+        for r in locks.module_writes(mod):
+            n += 1
+            S.cur_site = f"{name}:{r.line}: {r.text}"
+            S.oblige(f"O6.no_module_level_state_written.{name.rsplit('.', 1)[1]}.{r.field}", (name, r.field) in ALLOWED_MODULE_STATE, kind="lock", why=r.why, witness=f"{r.method}:{r.text}")
+        S.oblige(f"O6.module_scanned.{name.rsplit('.', 1)[1]}", hasattr(mod, "__file__"), kind="lemma")
+    S.canary("O6.canary.nothing_is_ever_written", SBool(__import__("z3").BoolVal(n == 0)))
